@@ -1403,6 +1403,7 @@ impl Compiler {
                 &instance_private_methods,
                 class_brand,
                 class_name.clone(),
+                has_super,
             )?
         } else {
             self.compile_default_constructor(
@@ -2032,6 +2033,7 @@ impl Compiler {
         instance_private_methods: &[&ClassMethod],
         class_brand: u32,
         name: Option<JsString>,
+        has_super: bool,
     ) -> Result<super::BytecodeChunk, JsError> {
         use super::FunctionInfo;
 
@@ -2145,45 +2147,88 @@ impl Compiler {
             }
         }
 
-        // Emit parameter property assignments: this.x = x
-        // These happen before instance field initializers
-        for (prop_name, value_reg, needs_free) in &param_properties {
-            let this_reg = func_compiler.builder.alloc_register()?;
-            func_compiler.builder.emit(Op::LoadThis { dst: this_reg });
-            let prop_idx = func_compiler.builder.add_string(prop_name.cheap_clone())?;
-            func_compiler.builder.emit(Op::SetPropertyConst {
-                obj: this_reg,
-                key: prop_idx,
-                value: *value_reg,
-            });
-            func_compiler.builder.free_register(this_reg);
-            // Free registers allocated for default values after they've been used
-            if *needs_free {
-                func_compiler.builder.free_register(*value_reg);
+        // Parameter property assignments (this.x = x), then instance field initializers,
+        // private fields and private methods. In a base class they run before the body; in a
+        // derived class they run right after the super(...) call, when the base constructor
+        // has initialised `this`.
+        let emit_initializers = |func_compiler: &mut Compiler| -> Result<(), JsError> {
+            for (prop_name, value_reg, needs_free) in &param_properties {
+                let this_reg = func_compiler.builder.alloc_register()?;
+                func_compiler.builder.emit(Op::LoadThis { dst: this_reg });
+                let prop_idx = func_compiler.builder.add_string(prop_name.cheap_clone())?;
+                func_compiler.builder.emit(Op::SetPropertyConst {
+                    obj: this_reg,
+                    key: prop_idx,
+                    value: *value_reg,
+                });
+                func_compiler.builder.free_register(this_reg);
+                // Free registers allocated for default values after they've been used
+                if *needs_free {
+                    func_compiler.builder.free_register(*value_reg);
+                }
             }
+
+            for field in instance_fields {
+                func_compiler.compile_instance_field_initializer(field)?;
+            }
+
+            // Initialize instance private fields
+            for field in instance_private_fields {
+                func_compiler.compile_instance_private_field_initializer(field, class_brand)?;
+            }
+
+            // Install instance private methods on 'this'
+            for method in instance_private_methods {
+                func_compiler.compile_instance_private_method_initializer(method, class_brand)?;
+            }
+            Ok(())
+        };
+
+        // The super(...) call of a derived class, when it is a statement of the body
+        let is_super_call = |stmt: &Statement| {
+            matches!(
+                stmt,
+                Statement::Expression(expr_stmt)
+                    if matches!(
+                        expr_stmt.expression.as_ref(),
+                        crate::ast::Expression::Call(call)
+                            if matches!(call.callee.as_ref(), crate::ast::Expression::Super(_))
+                    )
+            )
+        };
+        let super_call_index = if has_super {
+            ctor.body.body.iter().position(is_super_call)
+        } else {
+            None
+        };
+
+        if let Some(super_call_index) = super_call_index {
+            // Hoist var declarations in constructor body
+            func_compiler.emit_hoisted_declarations(&ctor.body.body)?;
+
+            // Same order as compile_statements: function declarations first
+            for stmt in ctor.body.body.iter() {
+                if matches!(stmt, Statement::FunctionDeclaration(_)) {
+                    func_compiler.compile_statement_impl(stmt)?;
+                }
+            }
+            for (index, stmt) in ctor.body.body.iter().enumerate() {
+                if !matches!(stmt, Statement::FunctionDeclaration(_)) {
+                    func_compiler.compile_statement_impl(stmt)?;
+                }
+                if index == super_call_index {
+                    emit_initializers(&mut func_compiler)?;
+                }
+            }
+        } else {
+            emit_initializers(&mut func_compiler)?;
+
+            // Hoist var declarations in constructor body
+            func_compiler.emit_hoisted_declarations(&ctor.body.body)?;
+
+            // Compile constructor body
+            func_compiler.compile_statements(&ctor.body.body)?;
         }
-
-        // Compile instance field initializers at the start of constructor
-        // These run before the user's constructor body (after super() call if extending)
-        for field in instance_fields {
-            func_compiler.compile_instance_field_initializer(field)?;
-        }
-
-        // Initialize instance private fields
-        for field in instance_private_fields {
-            func_compiler.compile_instance_private_field_initializer(field, class_brand)?;
-        }
-
-        // Install instance private methods on 'this'
-        for method in instance_private_methods {
-            func_compiler.compile_instance_private_method_initializer(method, class_brand)?;
-        }
-
-        // Hoist var declarations in constructor body
-        func_compiler.emit_hoisted_declarations(&ctor.body.body)?;
-
-        // Compile constructor body
-        func_compiler.compile_statements(&ctor.body.body)?;
 
         // Return this implicitly (constructor returns `this`)
         let this_reg = func_compiler.builder.alloc_register()?;
